@@ -1,6 +1,8 @@
 import BronVerif.Drive.Common
 import BronVerif.Model.Session
 import BronVerif.Model.Curves
+import BronVerif.Model.Hash.Keccak
+import BronVerif.Model.Hash.Blake2b
 /-!
 Driver handlers for C10 (session setup, sub-contexts, pseudorandom zero shares, setup faults).
 
@@ -13,33 +15,23 @@ Line formats (harness/c10.go, harness/c10_run.go); `<desc>` = five tokens
 * `przs <group> <ids> <sid> => q.q.q|id;share;peer=v&…|…,…`
 * `fault <desc> <kind;field;from;to;value,…> => <round>|id=outcome&…`
 
-Relations (agreement, symmetry, distinctness, zero sum, acceptance) are decided on every line.
-EXACT recomputation of sid / transcript extract / seed bytes / commitments from the messages is
-performed as soon as the hash models are available: see `hooks` below.
+Relations (agreement, symmetry, distinctness, zero sum, acceptance) are decided on every line, and
+sid / transcript extract / seed bytes (of contexts and sub-contexts) and every commitment opening are
+recomputed EXACTLY from the broadcast and unicast messages with the SHA3-512 / cSHAKE256 / BLAKE2b models.
 -/
 namespace BronVerif.Drive.C10
 open BronVerif BronVerif.Drive BronVerif.Session
 
-/-! ### Hash hooks
-Once `BronVerif.Model.Hash.*` is merged: add the imports and set
-`sha3_512 := some Hash.sha3_512`, `cshake256 := some Hash.cshake256` (N S msg outLen),
-`blake2b256 := some (keyed BLAKE2b-256: key msg)`. -/
-structure Hooks where
-  sha3_512 : Option (ByteArray → ByteArray) := none
-  cshake256 : Option (ByteArray → ByteArray → ByteArray → Nat → ByteArray) := none
-  blake2b256 : Option (ByteArray → ByteArray → ByteArray) := none
-
-def hooks : Hooks := {}
-
 def toBA (b : Bytes) : ByteArray := ⟨b.toArray⟩
 def ofBA (b : ByteArray) : Bytes := b.data.toList
 
-def hashes? : Option Hashes :=
-  match hooks.sha3_512, hooks.cshake256 with
-  | some h, some x => some
-      { h512 := fun b => ofBA (h (toBA b))
-        xof := fun s m n => ofBA (x ByteArray.empty (toBA s) (toBA m) n) }
-  | _, _ => none
+/-- the executable hash models (validated byte-for-byte against Go by the C19 stream) -/
+def hashes : Hashes :=
+  { h512 := fun b => ofBA (Hash.sha3_512 (toBA b))
+    xof := fun s m n => ofBA (Hash.cshake256 ByteArray.empty (toBA s) (toBA m) n) }
+
+/-- hashcom: BLAKE2b-256 keyed with the commitment key over `message ‖ witness` -/
+def commitOracle : Bytes → Bytes → Bytes := fun k x => ofBA (Hash.blake2b (toBA k) (toBA x) 32)
 
 /-- label and length of the harness's transcript extraction (c10CtxOut) -/
 def extractLabel : Bytes := ascii "C10-extract"
@@ -129,7 +121,7 @@ def checkQuorum (pre : String) (q : List Nat) (outs : List CtxOut) : Option Verd
   if !distinct (pairSeeds outs) then some (.bad (pre ++ "seed-distinct") "two different pairs share a seed") else
   none
 
-/-! ### exact recomputation (needs the hash hooks) -/
+/-! ### exact recomputation (hash models) -/
 
 def viewOf (d : Desc) (i : Nat) : Contribution :=
   let (ck, com) := (d.r1.lookup i).getD ([], [])
@@ -262,20 +254,6 @@ def viewFor (d : Desc) (ts : List Tamper) (me : Nat) : View :=
     r3u := fun s => if dropped "r3u" s then none else
       (d.r3u.find? fun e => e.1 == s && e.2.1 == me).map fun e => (upd "r3u" "msg" s e.2.2.1, upd "r3u" "wit" s e.2.2.2) }
 
-/-- commitment oracle: keyed BLAKE2b-256 when available; otherwise the table of the honest run
-(a query that was never made honestly gets a value that matches no 32-byte commitment — the
-"no collision among the inputs that occur" idealisation of the binding theorem) -/
-def commitOracle (d : Desc) : Bytes → Bytes → Bytes :=
-  match hooks.blake2b256 with
-  | some f => fun k x => ofBA (f (toBA k) (toBA x))
-  | none =>
-    let common := d.r1.filterMap fun (s, _, com) => (d.r2b.lookup s).map fun (m, w) => ((commonKey, m ++ w), com)
-    let pair := d.r3u.filterMap fun (s, r, m, w) => do
-      let (ck, _) ← d.r1.lookup r
-      let e ← d.r2u.find? fun e => e.1 == s && e.2.1 == r
-      some ((ck, m ++ w), e.2.2)
-    fun k x => ((common ++ pair).lookup (k, x)).getD []
-
 def renderRun (r : Nat × List (Nat × Outcome)) : String :=
   toString r.1 ++ "|" ++ "&".intercalate (r.2.map fun o => natToHex o.1 ++ "=" ++ o.2.render)
 
@@ -293,9 +271,8 @@ def handle (op : String) (args : List String) (rhs : String) : Verdict :=
       match checkQuorum "" (sortIds desc.ids) outs with
       | some v => v
       | none =>
-        match hashes? with
-        | none => .ok
-        | some H => mirror ("|".intercalate ((sortIds desc.ids).map fun i => renderCtxOut (ctxOutOf H (modelCtx H desc i)))) rhs
+        let H := hashes
+        mirror ("|".intercalate ((sortIds desc.ids).map fun i => renderCtxOut (ctxOutOf H (modelCtx H desc i)))) rhs
     | _, _ => .unsupported "setup args"
   | "subctx", [a, b, c, d, e, parent] =>
     match parseDesc? a b c d e, parseCtxOuts? parent with
@@ -317,13 +294,11 @@ def handle (op : String) (args : List String) (rhs : String) : Verdict :=
           let seeds := pairSeeds pouts ++ es.flatMap fun en => pairSeeds en.outs
           if !distinct exts then .bad "subctx-separate" "two different sub-quorums (or parent) share a transcript state" else
           if !distinct seeds then .bad "subctx-seed-separate" "two different sub-quorums (or parent) share a pairwise seed" else
-          match hashes? with
-          | none => .ok
-          | some H =>
-            let model := es.map fun en =>
-              en.key ++ "|" ++ "|".intercalate (en.quorum.map fun i =>
-                renderCtxOut (ctxOutOf H (en.chain.foldl (subContext H) (modelCtx H desc i))))
-            mirror (joinComma model) rhs
+          let H := hashes
+          let model := es.map fun en =>
+            en.key ++ "|" ++ "|".intercalate (en.quorum.map fun i =>
+              renderCtxOut (ctxOutOf H (en.chain.foldl (subContext H) (modelCtx H desc i))))
+          mirror (joinComma model) rhs
     | _, _ => .unsupported "subctx args"
   | "xsession", [_] =>
     match (splitComma rhs).mapM parseCtxOuts? with
@@ -339,7 +314,7 @@ def handle (op : String) (args : List String) (rhs : String) : Verdict :=
   | "fault", [a, b, c, d, e, t] =>
     match parseDesc? a b c d e, parseTampers? t with
     | some desc, some ts =>
-      let C := commitOracle desc
+      let C := commitOracle
       let myck (i : Nat) : Bytes := ((desc.r1.lookup i).map (·.1)).getD []
       let model := runSetup C desc.ids myck (viewFor desc ts)
       let ms := renderRun model
